@@ -132,3 +132,21 @@ def multiset_diff(got: list, want: list) -> str:
     missing = sorted((w - g).elements())
     extra = sorted((g - w).elements())
     return f"missing={missing[:12]} extra/duplicated={extra[:12]}"
+
+
+def guarded(ctx, clause: str, signature: tuple, what: str, fn):
+    """Run ``fn`` (a legal use of the library).  An exception it raises is a
+    failure of the property's clause, not a harness error.  Returns
+    (ok, value)."""
+    from vlib.core import Inconclusive, Violation
+    try:
+        return True, fn()
+    except (Violation, Inconclusive):
+        raise
+    except BaseException as exc:  # pylint: disable=broad-except
+        if type(exc).__name__ in ("KeyboardInterrupt", "SystemExit",
+                                  "SchedAbort"):
+            raise
+        ctx.fail(clause, tuple(signature) + (type(exc).__name__,),
+                 f"{what}: raised {type(exc).__name__}: {str(exc)[:400]}")
+        return False, None
